@@ -5,6 +5,9 @@ Streams (real pytezos vs the Lean mirror, same inputs):
   parse    T.from_micheline_value(m) on the rendered forms, on alternative spellings (flat / nested / sequence combs,
            annotated value primitives, timestamp strings with offsets and fractions, strings for ints …) and on
            mutants (wrong arities, wrong primitives, swapped literal kinds)
+  malformed  Micheline that is NOT a value, next to look-alike controls that are: annotated data constructors of every class,
+           three or more arguments (`Pair` and sequence form) over a right component that is not a pair class, strings with
+           control / non-ASCII characters (newlines are fine).  Own oracle: the real verdict must be the protocol's.
   clock    `Civil.fmtTimestamp` / `Civil.parseTimestamp` / `civilFromDays` / `daysFromCivil` (the model whose round trip is
            proved) vs the real `format_timestamp`, `TimestampType` parsing and `strict_rfc3339`, on year / month / leap-day
            boundaries, midnights, the epoch, random and out-of-range instants, and ~45 spellings of the text
@@ -252,6 +255,9 @@ def run(ctx):
                          'every node, or, option, list, set, map, big_map, lambda, contract, ticket, sapling_state) with values up to 4096-bit ints, '
                          'timestamps at the year boundaries 0001/0999/1000/9999/10000, negative and >= 2^63; right combs of 2..9 components in every '
                          'annotation pattern of the pair nodes; x 3 modes x lazy_diff None/False/True; parse stream adds alternative spellings and mutants. '
+                         'malformed stream: 24 annotated-constructor cases x 5 annotation lists (root and nested; Unit, True, False, Some, None, Left, Right, Pair, Elt, ticket comb) '
+                         '+ a random constructor node of 250 (T: 6000) rendered values; Pair / sequence with >= 3 arguments over 14 non-pair right components at four positions; '
+                         '~180 strings with tab / 0x01 / 0x7f / NUL / CR / non-ASCII / newline at the root and nested; each with accepted look-alike controls. '
                          'clock stream (model of format_timestamp / strict_rfc3339 vs the real functions, and the round trip on the real code): every month start / month end '
                          '+-1 s and 28 Feb .. 1 Mar of 34 years (0001, 0004, 0100, 0400, 1000, 1582, 1600, 1900, 1970, 2000, 2038, 2100, 9999, neighbours, leap and common years), '
                          'October 1582, epoch and 2^31 / 2^32 neighbourhoods, random midnights +-1 s rendered in three different orders, 10 000 (T: 200 000) random instants '
@@ -392,8 +398,194 @@ def run(ctx):
         if model is not None and unplaceholder(model[i]) != impl:
             ctx.mismatch('parse', {'type': t, 'spelling': name, 'micheline': json.dumps(mm)[:300]}, impl[:300], model[i][:300])
 
+    # ---------------------------------------------------------------- malformed values
+    run_malformed(ctx, cases, rendered)
+
     # ---------------------------------------------------------------- clock stream
     run_clock(ctx, st)
+
+
+ANNOT_SETS = [['%a'], [':t'], ['@v'], ['%a', ':t'], ['']]
+
+
+def printable(s):
+    """independent statement of the protocol's rule for a Michelson string: printable ASCII and newlines"""
+    return all(ch == '\n' or 0x20 <= ord(ch) <= 0x7e for ch in s)
+
+
+def _prim_paths(m, path=()):
+    """paths of the nodes `{'prim': …}` of a Micheline value"""
+    out = []
+    if isinstance(m, list):
+        for i, x in enumerate(m):
+            out += _prim_paths(x, path + (i,))
+    elif isinstance(m, dict) and 'prim' in m:
+        out.append(path)
+        for i, x in enumerate(m.get('args', [])):
+            out += _prim_paths(x, path + (i,))
+    return out
+
+
+def _annotate_at(m, path, annots):
+    if not path:
+        return dict(m, annots=list(annots))
+    if isinstance(m, list):
+        return [(_annotate_at(x, path[1:], annots) if i == path[0] else x) for i, x in enumerate(m)]
+    return dict(m, args=[(_annotate_at(x, path[1:], annots) if i == path[0] else x) for i, x in enumerate(m['args'])])
+
+
+def _node_at(m, path):
+    for i in path:
+        m = m[i] if isinstance(m, list) else m['args'][i]
+    return m
+
+
+def malformed_cases(ctx, cases, rendered):
+    """(group, key, type, Micheline, accepted?) — the last component is the oracle: what the protocol's typed reader says"""
+    rng = ctx.rng
+    quick = ctx.tier == 'quick'
+    T = lambda p, *a, **k: dict({'prim': p}, **({'args': list(a)} if a else {}), **k)
+    I = lambda n: {'int': str(n)}
+    P = lambda p, *a: dict({'prim': p}, **({'args': list(a)} if a else {}))
+    nat, int_, string, unit, bool_ = T('nat'), T('int'), T('string'), T('unit'), T('bool')
+    addr = g.dom_text('address', 0, bytes(range(20)), b'')
+    out = []
+
+    # ---- (1) a data constructor that carries annotations, every class that has constructors; the bare node is the control
+    fixed = [
+        ('Unit', unit, P('Unit'), ()), ('True', bool_, P('True'), ()), ('False', bool_, P('False'), ()),
+        ('Some', T('option', nat), P('Some', I(5)), ()), ('None', T('option', nat), P('None'), ()),
+        ('Left', T('or', nat, string), P('Left', I(1)), ()), ('Right', T('or', nat, string), P('Right', {'string': 'r'}), ()),
+        ('Pair', T('pair', nat, nat), P('Pair', I(1), I(2)), ()),
+        ('Pair', T('pair', nat, nat, nat), P('Pair', I(1), I(2), I(3)), ()),
+        ('Pair', T('pair', nat, nat, nat), P('Pair', I(1), P('Pair', I(2), I(3))), (1,)),
+        ('Pair', T('pair', nat, nat, nat, nat), [I(1), I(2), P('Pair', I(3), I(4))], (2,)),
+        ('Pair', T('pair', T('pair', nat, nat, annots=['%l']), nat), P('Pair', P('Pair', I(1), I(2)), I(3)), (0,)),
+        ('Elt', T('map', nat, nat), [P('Elt', I(1), I(2))], (0,)),
+        ('Elt', T('map', nat, nat), [P('Elt', I(1), I(2)), P('Elt', I(3), I(4))], (1,)),
+        ('Elt', T('big_map', nat, nat), [P('Elt', I(1), I(2))], (0,)),
+        ('Some', T('list', T('option', nat)), [P('None'), P('Some', I(1))], (1,)),
+        ('Unit', T('set', unit), [P('Unit')], (0,)),
+        ('True', T('map', bool_, unit), [P('Elt', P('True'), P('Unit'))], (0, 0)),
+        ('Unit', T('map', bool_, unit), [P('Elt', P('True'), P('Unit'))], (0, 1)),
+        ('Left', T('option', T('or', unit, unit)), P('Some', P('Left', P('Unit'))), (0,)),
+        ('Unit', T('option', T('or', unit, unit)), P('Some', P('Left', P('Unit'))), (0, 0)),
+        ('Pair', T('ticket', nat), P('Pair', {'string': addr}, I(5), I(3)), ()),
+        ('Pair', T('ticket', nat), P('Pair', {'string': addr}, P('Pair', I(5), I(3))), (1,)),
+        ('Some', T('pair', nat, T('option', nat)), P('Pair', I(1), P('Some', I(2))), (1,)),
+    ]
+    for prim, t, m, path in fixed:
+        out.append(('annotated-control', f'bare:{prim}', t, m, True))
+        out.append(('annotated-control', f'empty-annots:{prim}', t, _annotate_at(m, path, []), True))
+        for an in ANNOT_SETS:
+            out.append(('annotated', f'annotated-constructor:{prim}', t, _annotate_at(m, path, an), False))
+    # … and on a random constructor node of the values the render stream produced (no lambda below the type: the nodes of a
+    # lambda body are instructions, which may carry annotations)
+    pool = [(ci, mode, m) for ci, mode, m in rendered if '"lambda"' not in json.dumps(cases[ci][1]) and _prim_paths(m)]
+    for ci, mode, m in (rng.sample(pool, min(len(pool), 250 if quick else 6000)) if pool else []):
+        path = rng.choice(_prim_paths(m))
+        an = rng.choice(ANNOT_SETS)
+        out.append(('annotated', f'annotated-constructor:{_node_at(m, path)["prim"]}', cases[ci][1], _annotate_at(m, path, an), False))
+
+    # ---- (2) three or more arguments over a right component that is not a pair class
+    def rights():
+        a, b, c, d = sorted(rng.sample(range(0, 1000), 4))
+        return [
+            ('list', T('list', int_), [I(-a), I(b), I(c)], [I(-a), I(b), I(c)]),
+            ('list', T('list', nat), [I(a), I(b)], [I(a), I(b)]),
+            ('set', T('set', nat), [I(a), I(b), I(c)], [I(a), I(b), I(c)]),
+            ('map', T('map', nat, nat), [P('Elt', I(a), I(b)), P('Elt', I(c), I(d))], [P('Elt', I(a), I(b)), P('Elt', I(c), I(d))]),
+            ('big_map', T('big_map', nat, nat), [P('Elt', I(a), I(b)), P('Elt', I(c), I(d))], [P('Elt', I(a), I(b)), P('Elt', I(c), I(d))]),
+            ('option', T('option', nat), [I(a), I(b)], P('Some', I(a))),
+            ('option', T('option', T('pair', nat, nat)), [I(a), I(b)], P('Some', P('Pair', I(a), I(b)))),
+            ('or', T('or', nat, nat), [I(a), I(b)], P('Left', I(a))),
+            ('nat', nat, [I(a), I(b)], I(a)),
+            ('string', string, [{'string': 'x'}, {'string': 'y'}, {'string': 'z'}], {'string': 'x'}),
+            ('unit', unit, [P('Unit'), P('Unit')], P('Unit')),
+            ('lambda', T('lambda', unit, unit), [[], []], []),
+            ('ticket', T('ticket', nat), [{'string': addr}, I(a), I(b)], P('Pair', {'string': addr}, I(a), I(b))),
+            ('list', T('list', T('pair', nat, nat)), [P('Pair', I(a), I(b)), P('Pair', I(c), I(d))], [P('Pair', I(a), I(b)), P('Pair', I(c), I(d))]),
+        ]
+    for _ in range(2 if quick else 40):
+        for name, rt, items, proper in rights():
+            x = I(rng.randrange(0, 100))
+            t = T('pair', nat, rt)
+            out.append(('nary-control', f'two-args:{name}', t, P('Pair', x, proper), True))
+            out.append(('nary-control', f'two-args-seq:{name}', t, [x, proper], True))
+            out.append(('nary', f'nary-pair:{name}', t, P('Pair', x, *items), False))
+            out.append(('nary', f'nary-seq:{name}', t, [x] + items, False))
+            # below another constructor, and as the inner pair of a longer comb
+            out.append(('nary', f'nary-pair:{name}', T('or', t, unit), P('Left', P('Pair', x, *items)), False))
+            out.append(('nary', f'nary-pair:{name}', T('pair', t, nat), P('Pair', P('Pair', x, *items), I(7)), False))
+            out.append(('nary', f'nary-seq:{name}', T('pair', nat, nat, rt), P('Pair', I(0), [x] + items), False))
+            out.append(('nary', f'nary-pair:{name}', T('pair', nat, nat, rt), P('Pair', I(0), x, *items), False))
+    # the n-ary forms over a pair class (annotated or not) stay values
+    for rt in [T('pair', nat, nat), T('pair', nat, nat, annots=['%r']), T('pair', nat, nat, annots=[':r'])]:
+        t = T('pair', nat, rt)
+        for m in [P('Pair', I(1), I(2), I(3)), [I(1), I(2), I(3)], P('Pair', I(1), P('Pair', I(2), I(3))), P('Pair', I(1), [I(2), I(3)])]:
+            out.append(('nary-control', 'nary-over-pair', t, m, True))
+    out.append(('nary-control', 'nary-over-pair', T('pair', nat, nat, nat, T('list', nat)), P('Pair', I(1), I(2), I(3), [I(4), I(5)]), True))
+    out.append(('nary', 'nary-pair:list', T('pair', nat, nat, nat, T('list', nat)), P('Pair', I(1), I(2), I(3), I(4), I(5)), False))
+    out.append(('nary', 'nary-seq:list', T('pair', nat, nat, nat, T('list', nat)), [I(1), I(2), I(3), I(4), I(5)], False))
+
+    # ---- (3) strings: printable ASCII and newlines only
+    strs = ['a\tb', '\x01', '\x7f', 'a\nb', '\n', '\r\n', '\r', '\x00', 'ab\x00', '\x1f', '\x0b', '\x0c', '\x1b[0m', ' ', '~', ' ~', '', 'plain',
+            'line 1\nline 2\n', '\t', 'é', '\x80', '\x7f\n', '\n\x1f', '"', '\\', '\u2028', '\x85']
+    alphabet = [chr(c) for c in range(0, 0x80)] + ['\n'] * 6 + ['\x80', 'é', '\u2028']
+    for _ in range(150 if quick else 4000):
+        n = rng.choice([1, 1, 2, 3, 8])
+        strs.append(''.join(rng.choice(alphabet) if rng.random() < 0.3 else rng.choice('abc XYZ~09\n') for _ in range(n)))
+    for x in strs:
+        cls = 'newline' if '\n' in x and printable(x) else 'printable' if printable(x) else 'non-ascii' if any(ord(ch) > 0x7f for ch in x) else 'control-char'
+        grp = 'string' if not printable(x) else 'string-control'
+        out.append((grp, f'string:{cls}', string, {'string': x}, printable(x)))
+    for x in ['a\tb', '\x01', '\x7f', 'a\nb']:
+        ok = printable(x)
+        grp = 'string' if not ok else 'string-control'
+        cls = 'newline' if ok else 'control-char'
+        out.append((grp, f'string:{cls}', T('option', string), P('Some', {'string': x}), ok))
+        out.append((grp, f'string:{cls}', T('list', string), [{'string': 'a'}, {'string': x}], ok))
+        out.append((grp, f'string:{cls}', T('map', string, string), [P('Elt', {'string': x}, {'string': 'v'})], ok))
+        out.append((grp, f'string:{cls}', T('map', string, string), [P('Elt', {'string': 'k'}, {'string': x})], ok))
+        out.append((grp, f'string:{cls}', T('pair', nat, string, nat), P('Pair', I(1), {'string': x}, I(2)), ok))
+        out.append((grp, f'string:{cls}', T('or', string, nat), P('Left', {'string': x}), ok))
+    return out
+
+
+def run_malformed(ctx, cases, rendered):
+    """Micheline that is NOT a value (and look-alike controls that are): annotated data constructors of every class, three or
+    more arguments over a right component that is not a pair class, strings with control characters.  The verdict of the real
+    `from_micheline_value` must be the oracle's (the protocol's typed reader: rejected; a newline inside a string is fine) and
+    its output must be the model's."""
+    rows = malformed_cases(ctx, cases, rendered)
+    lines, meta = [], []
+    for grp, key, t, mm, accepted in rows:
+        cls = g.type_class(t)
+        try:
+            impl = ' '.join(g.obj_tokens(cls.from_micheline_value(mm)))
+        except Exception:
+            impl = 'err'
+        lines.append('parse ' + mich.to_line(t) + ' | ' + mich.to_line(g.to_placeholders(mich.normalize(mm))))
+        meta.append((grp, key, t, mm, accepted, impl))
+    model = ctx.model(lines)
+    reported = set()
+    for i, (grp, key, t, mm, accepted, impl) in enumerate(meta):
+        desc = {'stream': 'malformed', 'group': grp, 'type': t if len(json.dumps(t)) < 200 else '<large>', 'micheline': json.dumps(mm)[:200]}
+        ctx.case(desc, nontrivial=True)
+        ctx.count('malformed_group', grp)
+        ctx.count('malformed_verdict', ('accepted' if impl != 'err' else 'rejected') + ('' if (impl != 'err') == accepted else ' (oracle disagrees)'))
+        if (impl != 'err') != accepted:
+            k = 'malformed:' + key
+            if k not in reported:
+                reported.add(k)
+                ctx.violation(k, f'{json.dumps(t)[:120]}.from_micheline_value({json.dumps(mm)[:160]}) is '
+                                 + ('accepted' if impl != 'err' else 'rejected') + f' (read as {impl[:80]}); the protocol '
+                                 + ('accepts' if accepted else 'rejects') + ' it',
+                              {'type': t, 'micheline': mm, 'expected': 'accepted' if accepted else 'rejected', 'observed': impl[:300],
+                               'python': f'MichelsonType.match({json.dumps(t)}).from_micheline_value({json.dumps(mm)})'})
+            continue        # reported as a failing input, not again as a model mismatch
+        if model is not None and unplaceholder(model[i]) != impl:
+            ctx.mismatch('malformed', {'type': t, 'group': grp, 'micheline': json.dumps(mm)[:300]}, impl[:300], model[i][:300])
 
 
 def run_clock(ctx, st):
